@@ -373,6 +373,10 @@ def impl(c):
         if len(live_at) < 2:
             break
         a, b = rng.sample(live_at, 2)
+        for _try in range(8):          # tokens of DIFFERENT users, so that an answer for the other session shows
+            if owner.get(a[2], [0])[0] != owner.get(b[2], [1])[0]:
+                break
+            a, b = rng.sample(live_at, 2)
         for slot in ("userinfo", "introspect"):
             try:
                 if slot == "userinfo":
